@@ -256,6 +256,25 @@ func factsSeq(o *out, res, mgr pkgFiles) {
 		strings.Join(full, ", "), reqCap, streamCap, expire, leanStr(reservedName), leanBool(ackShape), leanBool(reconnectShape),
 		leanBool(earlyReturn), leanBool(filterShape), leanBool(watchShape), leanStrList(order), leanBool(cleanerShape))
 	o.line("def sendAborts : Bool := %s", sendAborts)
+	// the request path at goroutine granularity (Model/Flow.lean)
+	sendBlocks := sr == "{ c.reqCh <- req }" || sr == "{ select { case c.reqCh <- req: case <-c.closeCh: } }"
+	snd := bodyNorm(mgr.findFunc("xdsClient", "sender"))
+	senderShape := snd == `{ currStream := as for { select { case <-c.closeCh: klog.Infof("KITEX: [XDS] client, stop ads client sender") return case s := <-c.streamCh: currStream = s if err := c.reqWhenReconnect(currStream); err != nil { currStream = nil continue } case req := <-c.reqCh: if currStream != nil { err := currStream.Send(req) if err != nil { klog.Errorf("KITEX: [XDS] client, send failed, error=%s", err) currStream = nil } } } } }`
+	if !senderShape {
+		o.note("flow: sender body %q", snd)
+	}
+	rwr := bodyNorm(mgr.findFunc("xdsClient", "reqWhenReconnect"))
+	adoptLocks := rwr == "{ c.mu.Lock() defer c.mu.Unlock() for rType, res := range c.watchedResource { req := c.prepareRequest(rType, c.versionMap[rType], c.nonceMap[rType], res) if err := as.Send(req); err != nil { return err } } return nil }"
+	if !adoptLocks {
+		o.note("flow: reqWhenReconnect body %q", rwr)
+	}
+	clr := bodyNorm(mgr.findFunc("", "clearRequestCh"))
+	drainAll := clr == "{ for i := 0; i < length; i++ { select { case _, ok := <-ch: if !ok { return } default: return } } }"
+	if !drainAll {
+		o.note("flow: clearRequestCh body %q", clr)
+	}
+	o.line("def flow : Flow.FlowFacts := { sendBlocks := %s, senderShape := %s, adoptLocks := %s, producersHoldLock := %s, drainThenPublish := %s }",
+		leanBool(sendBlocks), leanBool(senderShape), leanBool(adoptLocks), leanBool(ackShape && watchShape), leanBool(reconnectShape && drainAll))
 	// updateMeta: does a new entry start with a last-access time?
 	um := bodyNorm(mgr.findFunc("xdsResourceManager", "updateMeta"))
 	metaInit := "false"
